@@ -915,7 +915,9 @@ class TDS(BaseRoutine):
         if csv_file is None:
             return None
 
-        df = pd.read_csv(csv_file)
+        # use the round-trip parser so that time stamps and values are read back exactly;
+        # the default fast parser can be off by one ulp, which merges adjacent time stamps
+        df = pd.read_csv(csv_file, float_precision='round_trip')
 
         if df.isnull().values.any():
             raise ValueError("CSV file contains missing values. Please check data consistency.")
